@@ -11,6 +11,7 @@ pub mod c08_diff;
 pub mod c10_history;
 pub mod c11_saveload;
 pub mod c15_untrusted;
+pub mod c20_sync;
 pub mod c23_bloom;
 pub mod c24_text;
 pub mod c25_marks;
@@ -43,6 +44,9 @@ pub fn registry() -> Vec<Box<dyn Check>> {
         Box::new(c15_untrusted::C15),
         Box::new(c15_untrusted::C16),
         Box::new(c15_untrusted::C17),
+        Box::new(c20_sync::C20),
+        Box::new(c20_sync::C21),
+        Box::new(c20_sync::C22),
         Box::new(c23_bloom::C23),
         Box::new(c24_text::C24),
         Box::new(c25_marks::C25),
